@@ -1,5 +1,6 @@
 """C20 - Condition setters clamp to their documented ranges and round-trip; defaults."""
 from ..expr import ExprBuilder, Clamp, to_clamp, show, stores, root_of, mut_arg_calls, walk, NEG_INF, POS_INF
+from .. import paths
 from . import common as cm
 
 COND = "engine::Condition::"
@@ -36,6 +37,49 @@ def is_self(e):
     return e[0] == "arg" and e[1] == 1
 
 
+def check_setter(ctx, p, RULE, name):
+    """one setter of Condition: a single unconditional store of the documented clamp into its own field"""
+    field, indexed, want = RANGES[name]
+    b = cm.body_or_fail(ctx, p, RULE, COND + name)
+    if b is None:
+        return
+    eb = ExprBuilder(b)
+    val_arg = b.argc  # the value is the last parameter
+    sts = [s for s in stores(b, eb) if is_self(s[4])]
+    if len(sts) != 1:
+        ctx.fail(RULE, b.path, "stores", "expected exactly one store through self, found %d" % len(sts), b.loc())
+        return
+    bb, i, st, tgt, root, chain, val = sts[0]
+    want_chain = [field, "[]"] if indexed else [field]
+    if chain != want_chain:
+        ctx.fail(RULE, b.path, "store target", "stores into self.%s, expected self.%s" % (".".join(chain), ".".join(want_chain)), cm.loc_of(st["span"]))
+        return
+    if indexed:
+        idx = tgt[2]
+        if not (idx[0] == "arg" and idx[1] == 2):
+            ctx.fail(RULE, b.path, "store index", "element index is %s, expected the stream_index parameter" % show(idx), cm.loc_of(st["span"]))
+            return
+    # the store happens for every argument: no path reaches the return around it
+    rets = [r for r in range(len(b.blocks)) if not b.is_cleanup(r) and b.blocks[r]["term"]["k"] == "return"]
+    if any(b.can_reach(0, r, avoid={bb}) for r in rets):
+        conds = [show(paths.bool_atoms(g)[1])[:80] for g in paths.guards(b, bb, eb) if g[0] in ("true", "false")]
+        ctx.fail(RULE, b.path, "conditional store", "%s can return without storing (the store is under `%s`): for those arguments the old value stays instead of the documented clamp" % (name, " && ".join(conds) or "?"), cm.loc_of(st["span"]))
+        return
+    got = to_clamp(val, lambda e: e[0] == "arg" and e[1] == val_arg)
+    if got is None:
+        ctx.fail(RULE, b.path, "stored value", "unmodelled operation in the stored value %s (outside the clamp domain: max/min/clamp with constants)" % show(val), cm.loc_of(st["span"]))
+        return
+    if got == want:
+        ctx.ok(RULE, "%s: self.%s <- %s of the argument" % (name, ".".join(chain), got), cm.loc_of(st["span"]))
+    else:
+        ctx.fail(RULE, b.path, "stored value", "stores %s of the argument, documented range requires %s" % (got, want), cm.loc_of(st["span"]))
+    # no other writer: calls receiving self mutably (other than index_mut on the field)
+    for cbb, t, cname, k, ref in mut_arg_calls(b, eb):
+        r, ch = root_of(ref)
+        if is_self(r) and "index_mut" not in cname and "IndexMut" not in cname:
+            ctx.fail(RULE, b.path, "call " + cname, "self passed mutably to another function", cm.loc_of(t["span"]))
+
+
 def run(ctx):
     ctx.rule("C20-R1", "each range-limited setter stores T(v) into its own field only, T = the documented clamp; unrestricted setters store the identity")
     ctx.rule("C20-R2", "each getter returns its field (or element at the given stream index)")
@@ -43,39 +87,8 @@ def run(ctx):
     p = cm.program(ctx)
 
     # ---- R1
-    for name, (field, indexed, want) in RANGES.items():
-        b = cm.body_or_fail(ctx, p, "C20-R1", COND + name)
-        if b is None:
-            continue
-        eb = ExprBuilder(b)
-        val_arg = b.argc  # the value is the last parameter
-        sts = [s for s in stores(b, eb) if is_self(s[4])]
-        if len(sts) != 1:
-            ctx.fail("C20-R1", b.path, "stores", "expected exactly one store through self, found %d" % len(sts), b.loc())
-            continue
-        bb, i, st, tgt, root, chain, val = sts[0]
-        want_chain = [field, "[]"] if indexed else [field]
-        if chain != want_chain:
-            ctx.fail("C20-R1", b.path, "store target", "stores into self.%s, expected self.%s" % (".".join(chain), ".".join(want_chain)), cm.loc_of(st["span"]))
-            continue
-        if indexed:
-            idx = tgt[2]
-            if not (idx[0] == "arg" and idx[1] == 2):
-                ctx.fail("C20-R1", b.path, "store index", "element index is %s, expected the stream_index parameter" % show(idx), cm.loc_of(st["span"]))
-                continue
-        got = to_clamp(val, lambda e: e[0] == "arg" and e[1] == val_arg)
-        if got is None:
-            ctx.fail("C20-R1", b.path, "stored value", "unmodelled operation in the stored value %s (outside the clamp domain: max/min/clamp with constants)" % show(val), cm.loc_of(st["span"]))
-            continue
-        if got == want:
-            ctx.ok("C20-R1", "%s: self.%s <- %s of the argument" % (name, ".".join(chain), got), cm.loc_of(st["span"]))
-        else:
-            ctx.fail("C20-R1", b.path, "stored value", "stores %s of the argument, documented range requires %s" % (got, want), cm.loc_of(st["span"]))
-        # no other writer: calls receiving self mutably (other than index_mut on the field)
-        for cbb, t, cname, k, ref in mut_arg_calls(b, eb):
-            r, ch = root_of(ref)
-            if is_self(r) and "index_mut" not in cname and "IndexMut" not in cname:
-                ctx.fail("C20-R1", b.path, "call " + cname, "self passed mutably to another function", cm.loc_of(t["span"]))
+    for name in RANGES:
+        check_setter(ctx, p, "C20-R1", name)
 
     # ---- R2
     for name, (field, indexed) in GETTERS.items():
